@@ -105,64 +105,21 @@ def renames_shape(si: int, a: int, b: int, ci: int, ni: int) -> bool:
   return _one(si, a, b, ci, ni)
 
 
-OBLIGATIONS = [{"func": "invalid_untouched", "cond_timeout": 100, "desc": "texts that do not parse are returned unchanged"}]
-# one obligation per (shape) would multiply processes; the index ranges are split by scenario instead
-for _ci in range(len(SCEN_KEYS)):
-  _name = "renames_c%d" % _ci
-  OBLIGATIONS.append({"func": _name, "cond_timeout": 400, "desc": "collector/entity %s: parsed(new text) == old tree with exactly the matching .X renamed" % (SCEN_KEYS[_ci],)})
+def rename_case(si, a, b, ci, ni):
+  return _one(si, a, b, ci, ni)
 
 
-def renames_c0(si: int, a: int, b: int, ni: int) -> bool:
-  """
-  pre: 0 <= si < len(SHAPES) and 0 <= a < len(ATOMS) and 0 <= b < len(ATOMS) and 0 <= ni < len(NEW)
-  post: _
-  """
-  return _one(si, a, b, 0, ni)
-
-
-def renames_c1(si: int, a: int, b: int, ni: int) -> bool:
-  """
-  pre: 0 <= si < len(SHAPES) and 0 <= a < len(ATOMS) and 0 <= b < len(ATOMS) and 0 <= ni < len(NEW)
-  post: _
-  """
-  return _one(si, a, b, 1, ni)
-
-
-def renames_c2(si: int, a: int, b: int, ni: int) -> bool:
-  """
-  pre: 0 <= si < len(SHAPES) and 0 <= a < len(ATOMS) and 0 <= b < len(ATOMS) and 0 <= ni < len(NEW)
-  post: _
-  """
-  return _one(si, a, b, 2, ni)
-
-
-def renames_c3(si: int, a: int, b: int, ni: int) -> bool:
-  """
-  pre: 0 <= si < len(SHAPES) and 0 <= a < len(ATOMS) and 0 <= b < len(ATOMS) and 0 <= ni < len(NEW)
-  post: _
-  """
-  return _one(si, a, b, 3, ni)
-
-
-def renames_c4(si: int, a: int, b: int, ni: int) -> bool:
-  """
-  pre: 0 <= si < len(SHAPES) and 0 <= a < len(ATOMS) and 0 <= b < len(ATOMS) and 0 <= ni < len(NEW)
-  post: _
-  """
-  return _one(si, a, b, 4, ni)
-
-
-def renames_c5(si: int, a: int, b: int, ni: int) -> bool:
-  """
-  pre: 0 <= si < len(SHAPES) and 0 <= a < len(ATOMS) and 0 <= b < len(ATOMS) and 0 <= ni < len(NEW)
-  post: _
-  """
-  return _one(si, a, b, 5, ni)
-
-
+OBLIGATIONS = []
+ENUM = [
+  {"func": "rename_case", "domains": {"ci": list(range(len(SCEN_KEYS))), "si": list(range(len(SHAPES))), "a": list(range(len(ATOMS))),
+                                      "b": list(range(len(ATOMS))), "ni": list(range(len(NEW)))}, "shard_by": "ci", "max_s": 400,
+   "desc": "parsed(new text) == old tree with exactly the matching .X renamed, for every text of the grammar, scenario and new name"},
+  {"func": "invalid_untouched", "domains": {"i": list(range(len(INVALID))), "ci": list(range(len(SCEN_KEYS)))}, "max_s": 60,
+   "desc": "texts that do not parse are returned unchanged"},
+]
 BOUNDS = {"texts": "%d shapes x %d x %d atoms" % (len(SHAPES), len(ATOMS), len(ATOMS)), "new names": NEW, "scenarios": [list(k) for k in SCEN_KEYS],
           "invalid texts": INVALID}
 FILES = ["sandbox/grist/predicate_formula.py", "sandbox/grist/acl.py", "sandbox/grist/dropdown_condition.py", "sandbox/grist/trigger_expression.py",
          "sandbox/grist/textbuilder.py"]
-ASSUMPTIONS = ["predicate text is realised per path (ast.parse is C); engine-level wiring (perform_*_renames on metadata records) is "
-               "exercised by the C16/C01 engine runs on fixture documents, not here"]
+ASSUMPTIONS = ["predicate text is concrete per run (ast.parse is C): the grammar is enumerated by the z3 AllSAT loop, not symbolic; engine-level "
+               "wiring (perform_*_renames on metadata records) is not covered here"]
